@@ -17,6 +17,9 @@ CHECKS['C01'] = dict(level='model_checking', design='1/C01',
 CHECKS['C02'] = dict(level='model_checking', design='1/C02',
      text='Histories of symbolic operations (set, operator[], remove, has/get, clear, clone) on Map<int,int>, HashMap with 2, 4 and 256 buckets (keys chosen to collide and to cross the growth threshold), Dic/HashDic with prefix-sharing and hash-colliding String keys, and the Set algebra on symbolic element sets built in two orders and table sizes, are executed on the real templates against an association-list model; enumeration, equality and leak checks on every path.',
      note='Bounds in evidence. Trusted: z3, engine IR semantics and heap model.')
+CHECKS['C16'] = dict(level='model_checking', design='1/C16',
+     text='StreamBuffer operator<< (all scalar overloads, Array<T>, strings) and StreamBufferReader read2/4/8 are executed symbolically for every bit pattern of every scalar type, all three byte orders and a switch at any point, against a shift/mask reference serializer, byte for byte; read-back equality of bit patterns.',
+     note='Bounds in evidence (sequence length <= 3). Little-endian target. Trusted: z3, engine IR semantics.')
 NA = {
 }
 ALL = ['C%02d' % i for i in range(1, 21)]
